@@ -62,6 +62,12 @@ def plan(tier, seed, models=None, extra_default=True):
     for name, dec in (("sum_eq", [0]), ("max_eq", [0, 1]), ("obj_shared_offset", [0])):
         if name in names:
             runs.append((name, dict(decision=dec)))
+    # decision-domain subsets that do NOT determine every variable: whatever is reported must still be a solution (C01); the
+    # enumeration need not be complete (C02 is about full decision sets) and the search may end by refusing to go on
+    for name, dec in (("alldiff3", [0]), ("lt", [1]), ("alldiff_lt", [2]), ("queens_like", [1]), ("max_leq_min_geq", [0]), ("geq_leq", [0])):
+        if name in names:
+            runs.append((name, dict(decision=dec, underdetermined=True)))
+            runs.append((name, dict(decision=dec, underdetermined=True, cons="shaving", domh="max")))
     seen, out = set(), []
     for name, cfg in runs:
         key = (name, tuple(sorted((k_, str(v_)) for k_, v_ in cfg.items())))
